@@ -151,6 +151,8 @@ def stepLine (s : St) (toks : List String) : St × String :=
     | some r => (init r, "ok")
     | none => (s, "bad-op")
   | ["drain"] => let r := drain s; (r.1, showNats r.2)
+  | ["state"] =>
+    (s, s!"q={showNats s.queue} pushed={showNats s.pushed} stopped={if s.stopped then 1 else 0} revisit={if s.revisit then 1 else 0}")
   | _ => match parseOp toks with
     | some op => let r := step s op; (r.1, showOut r.2)
     | none => (s, "bad-op")
